@@ -305,8 +305,12 @@ fn fields_example(
             Ok(quote!(( #(#field_values ,)* #maybe_phantom )))
         }
         (true, true) => {
-            // no fields
-            Ok(quote!())
+            // no fields; a generated unit struct with unused type params is a tuple struct holding the marker
+            if needs_phantom_data {
+                Ok(quote!((::core::marker::PhantomData)))
+            } else {
+                Ok(quote!())
+            }
         }
         (false, false) => {
             // mixed fields
